@@ -70,7 +70,8 @@ def step (st : St) (n : Nat) (line : String) : IO St := do
   if (l.startsWith "op " || l.startsWith "opd " || l.startsWith "rx " || l.startsWith "tx " || l.startsWith "cfg " || l.startsWith "ret " ||
       l.startsWith "port " || l.startsWith "credits " || l.startsWith "settled " || l.startsWith "sent " || l.startsWith "end " ||
       l.startsWith "run " || l.startsWith "cancelled " || l.startsWith "injected " || l.startsWith "new " || l.startsWith "tasks " ||
-      l.startsWith "alloc ") then return st else
+      l.startsWith "alloc " || l.startsWith "listen " || l.startsWith "time " || l.startsWith "runtime " || l.startsWith "fault " ||
+      l.startsWith "livelock " || l.startsWith "byte " || l.startsWith "item " || l.startsWith "panic") then return st else
   match splitBar l with
   | none => bad "malformed"
   | some (lhs, rhs) =>
